@@ -440,6 +440,7 @@ inductive In
   | via (coid : Nat) (addr : Text) (port : Nat)      -- `circuit.stream_via(…).connect(…)` whose SOCKS connection has this local address
   | viaLost (addr : Text) (port : Nat)               -- the SOCKS connection made from this local address fails before its stream was seen
   | addrMap (name ip : Text)                         -- `ADDRMAP name ip NEVER`
+  | newConsensus                                     -- a NEWCONSENSUS document: the relay table is replaced (C16); hops are identified by fingerprint
   deriving DecidableEq, Repr
 
 def listen (l : List Nat) (lid : Nat) : List Nat := if lid ∈ l then l else l ++ [lid]
@@ -541,5 +542,6 @@ def step (s : St) : In → St × List Out
     | none => (s, [])
     | some (d, ts) => ({ s with nextD := s.nextD + 1, targets := ts }, [.fire d false, .deferred s.nextD])
   | .addrMap name ip => (addrUpdate s name ip, [])
+  | .newConsensus => (s, [])
 
 end TxV.TorState
